@@ -33,8 +33,35 @@ class Driver:
         self.proc = subprocess.Popen([BIN], stdin=subprocess.PIPE, stdout=subprocess.PIPE, text=True, bufsize=1)
 
     n_calls = 0
+    seen = None
+    nontrivial = None
+    samples = None
+
+    def reset_stats(self):
+        self.n_calls = 0; self.seen = set(); self.nontrivial = set(); self.samples = []
+
+    def _note(self, req, resp):
+        if self.seen is None:
+            self.reset_stats()
+        h = hash(req)
+        self.seen.add(h)
+        # non-trivial: the real crate did something other than plainly accept (an error message, a value, a shape ...)
+        if resp != "ok":
+            self.nontrivial.add(h)
+            if len(self.samples) < 3:
+                def dec(x):
+                    try:
+                        return bytes.fromhex(x).decode("utf-8") if len(x) > 1 and len(x) % 2 == 0 else x
+                    except Exception:
+                        return x
+                self.samples.append({"request": [dec(x)[:300] for x in req.split("\t")], "response": " ".join(dec(x)[:300] for x in resp.split(" "))[:400]})
 
     def call(self, op, *args):
+        r = self._call(op, *args)
+        self._note("\t".join([op] + list(args)), r)
+        return r
+
+    def _call(self, op, *args):
         self.n_calls += 1
         if self.proc is None or self.proc.poll() is not None:
             self.start()
@@ -125,7 +152,7 @@ def run_bounded(names, seed, budget=600, drv=None):
         for nm in names:
             f = SEARCHERS[nm]
             t0 = time.time()
-            drv.n_calls = 0
+            drv.reset_stats()
             try:
                 if "obligation" in inspect.signature(f).parameters:
                     w = f(drv, random.Random(seed), budget, obligation="")
@@ -134,7 +161,8 @@ def run_bounded(names, seed, budget=600, drv=None):
             except Exception as e:     # a broken searcher must never raise an alarm
                 out.append({"searcher": nm, "witness": None, "error": repr(e), "cases": drv.n_calls, "wall_s": round(time.time() - t0, 2), "bound": (f.__doc__ or "").strip()})
                 continue
-            out.append({"searcher": nm, "witness": w, "cases": drv.n_calls, "wall_s": round(time.time() - t0, 2), "bound": (f.__doc__ or "").strip()})
+            out.append({"searcher": nm, "witness": w, "cases": drv.n_calls, "distinct": len(drv.seen), "distinct_nontrivial": len(drv.nontrivial),
+                        "samples": list(drv.samples), "wall_s": round(time.time() - t0, 2), "bound": (f.__doc__ or "").strip()})
     finally:
         if own:
             drv.close()
@@ -874,4 +902,71 @@ def search_template(drv, rng, budget):
         got = drv.call("run", hx(src), hx(mod(wrongv)), hx(""), "0")
         if not got.startswith("exec-fail"):
             return {"call": "instantiate with another value", "input": {"program": src, "arguments": mod(wrongv)}, "op": ["run", hx(src), hx(mod(wrongv)), hx(""), "0"], "expected": "exec-fail", "observed": got}
+    return None
+
+
+# ---------------------------------------------------------------- C20 error rendering
+def rust_lines(s):
+    """str::lines(): split at \\n, a \\r directly before the \\n is stripped, no empty last line"""
+    parts = s.split("\n")
+    if parts and parts[-1] == "":
+        parts.pop()
+        return [p[:-1] if p.endswith("\r") else p for p in parts]
+    return [p[:-1] if p.endswith("\r") else p for p in parts[:-1]] + parts[-1:]
+
+
+@searcher("error/")
+def search_error_render(drv, rng, budget):
+    """failing programs of 1-12 lines with an error injected at a random place (type mismatch, undefined variable, bad token,
+    unbalanced bracket, bad literal), random indentation with tabs, CRLF or LF line ends, non-ASCII text in comments: every
+    `N | text` line of the rendered message quotes line N verbatim, numbers are consecutive and inside the file, the
+    message ends with an error description"""
+    import re
+    good = ["let a: u8 = 1;", "let b: u16 = 2;", "let c: (u8, u8) = (a, a);", "// commentaire é ü 漢字", "let d: bool = true;",
+            "assert!(jet::eq_8(a, 1));", "let e: u8 = { let f: u8 = a; f };", "/* block */ let g: u32 = 7;"]
+    bad = ["let x: u8 = 300;", "let x: u8 = nope;", "let x: u16 = a;", "let x: u8 = (1, 2);", "let x u8 = 1;", "let x: u8 = 1", "let x: u8 = $;",
+           "let x: [u8; 2] = [1];", "let x: u8 = 0b101;", "assert!(jet::eq_8(a, b));", "let x: u8 = {{ 1 ;", "let (p, q): u8 = 1;", "let x: Zz = 1;", "é"]
+    for it in range(min(budget, 300)):
+        n = rng.randint(0, 9)
+        body = [rng.choice(good) for _ in range(n)]
+        if "let a: u8 = 1;" not in body[:1]:
+            body.insert(0, "let a: u8 = 1;")
+        body.insert(rng.randint(1, len(body)), rng.choice(bad))
+        ind = lambda: rng.choice(["    ", "\t", "\t\t", "  \t", ""])
+        lines = ["fn main() {"] + [ind() + b for b in body] + ["}"]
+        if rng.random() < 0.3:
+            lines.insert(0, "// en-tête: ñ")
+        nl = rng.choice(["\n", "\r\n"])
+        src = nl.join(lines) + (nl if rng.random() < 0.7 else "")
+        got = drv.call("render_err", hx(src))
+        if got == "ok":
+            continue
+        if not got.startswith("err "):
+            return {"call": "TemplateProgram::new (error rendering)", "input": {"source": src}, "op": ["render_err", hx(src)], "expected": "Err(message)", "observed": got[:300]}
+        msg = bytes.fromhex(got[4:]).decode("utf-8", "replace")
+        flines = rust_lines(src)
+        mlines = msg.split("\n")
+        quoted = []
+        bad_reason = None
+        for ml in mlines:
+            m = re.match(r"^ *(\d+) \| (.*)$", ml) or re.match(r"^ *(\d+) \|()$", ml)
+            if m:
+                quoted.append((int(m.group(1)), m.group(2) if m.lastindex >= 2 else ""))
+        if not quoted:
+            bad_reason = "the message quotes at least one source line"
+        else:
+            nums = [q[0] for q in quoted]
+            if nums != list(range(nums[0], nums[0] + len(nums))):
+                bad_reason = "quoted line numbers are consecutive"
+            elif nums[0] < 1 or nums[-1] > len(flines):
+                bad_reason = "quoted line numbers exist in the file (1..%d)" % len(flines)
+            else:
+                for num, text in quoted:
+                    if text != flines[num - 1]:
+                        bad_reason = "line %d is quoted verbatim (%r)" % (num, flines[num - 1]); break
+            last = mlines[-1]
+            if bad_reason is None and not re.match(r"^ *\| *\^* \S", last):
+                bad_reason = "the message ends with the underline and the description of the error"
+        if bad_reason:
+            return {"call": "TemplateProgram::new (error rendering)", "input": {"source": src}, "op": ["render_err", hx(src)], "expected": bad_reason, "observed": msg[:500]}
     return None
